@@ -9,7 +9,7 @@ SENT_LO, SENT_HI = -(1 << 30), (1 << 30) - 1
 
 META = {
     "property": "C18",
-    "proof_modules": ["PyodaProofs.C18", "PyodaProofs.C18YearMonth"],
+    "proof_modules": ["PyodaProofs.C18", "PyodaProofs.C18YearMonth", "PyodaProofs.GenAgreeC18"],
     "drivers": ["drv_intervals"],
     "theorems": [
         "Pyoda.C18.new_ok_iff", "Pyoda.C18.new_rejects_iff", "Pyoda.C18.new_total",
@@ -28,8 +28,34 @@ META = {
         "Pyoda.C18.toMonth_succ_key", "Pyoda.C18.ym_succ_key_adjacent", "Pyoda.C18.ym_succ_month_adjacent",
         "Pyoda.C18.first_month_starts_year", "Pyoda.C18.last_month_ends_year", "Pyoda.C18.ym_year_wrap_adjacent",
         "Pyoda.C18.all19", "Pyoda.C18.ym_interval_all",
+        # agreement of the definitions generated from the Python source (tools/py2lean.py) with the model
+        "Pyoda.GenAgree.C18.gen_checkNotNullDI_eq", "Pyoda.GenAgree.C18.gen_DateInterval_new_eq",
+        "Pyoda.GenAgree.C18.gen_DateInterval_start_eq", "Pyoda.GenAgree.C18.gen_DateInterval_end_eq",
+        "Pyoda.GenAgree.C18.gen_DateInterval_calendar_eq", "Pyoda.GenAgree.C18.gen_DateInterval_validateInterval_eq",
+        "Pyoda.GenAgree.C18.gen_DateInterval_containsDate_eq",
+        "Pyoda.GenAgree.C18.gen_DateInterval_containsInterval_eq",
+        "Pyoda.GenAgree.C18.gen_DateInterval_containsDateMethod_eq",
+        "Pyoda.GenAgree.C18.gen_DateInterval_containsIntervalMethod_eq",
+        "Pyoda.GenAgree.C18.gen_DateInterval_len_eq", "Pyoda.GenAgree.C18.gen_DateInterval_inter_eq",
+        "Pyoda.GenAgree.C18.gen_DateInterval_intersection_eq", "Pyoda.GenAgree.C18.gen_DateInterval_union_eq",
+        "Pyoda.GenAgree.C18.gen_DateInterval_unionMethod_eq", "Pyoda.GenAgree.C18.gen_Interval_new_eq",
+        "Pyoda.GenAgree.C18.gen_Interval_newNoStart_eq", "Pyoda.GenAgree.C18.gen_Interval_newNoEnd_eq",
+        "Pyoda.GenAgree.C18.gen_Interval_newUnbounded_eq", "Pyoda.GenAgree.C18.gen_Interval_start_eq",
+        "Pyoda.GenAgree.C18.gen_Interval_hasStart_eq", "Pyoda.GenAgree.C18.gen_Interval_end_eq",
+        "Pyoda.GenAgree.C18.gen_Interval_rawEnd_eq", "Pyoda.GenAgree.C18.gen_Interval_hasEnd_eq",
+        "Pyoda.GenAgree.C18.gen_Interval_duration_eq", "Pyoda.GenAgree.C18.gen_Interval_containsOp_eq",
+        "Pyoda.GenAgree.C18.gen_Interval_contains_eq", "Pyoda.GenAgree.C18.gen_Interval_beq_eq",
+        "Pyoda.GenAgree.C18.gen_Interval_bne_eq", "Pyoda.GenAgree.C18.gen_Interval_equals_eq",
     ],
     "trusted_base": [
+        "translator tie (tools/py2lean.py): every member of _date_interval.py and _interval.py except __iter__, __hash__, __repr__ and DateInterval.__eq__ "
+        "(constructors' validation incl. the four None / not-None combinations of Interval, both __contains__ overloads, contains, __len__, __and__, __or__, "
+        "intersection, union, start/end guards, has_start/has_end, duration, Interval equality) is re-translated from the current source into "
+        "lean/PyodaGen/C18.lean on every run and proved equal to the model (PyodaProofs/GenAgreeC18.lean). Trusted there: the translator's semantics "
+        "(validated against CPython by the self-test of C03); LocalDate and Instant are the model's types and their own operations are hand-mapped helpers "
+        "(lean/PyodaGen/GlueC18.lean: LocalDate comparisons / min / max / Period.days_between = the model functions on (calendar ordinal, day number), "
+        "calendar identity = equality of ordinals (one object per ordinal, C13); Instant comparisons, _is_valid, subtraction and sentinels = the model "
+        "functions that GenAgreeC03 proves equal to the generated _instant.py)",
         "order of LocalDate values of one calendar = order of their day numbers (LocalDate._days_since_epoch; the direct oracle "
         "compares the real objects' answers with integer comparisons on those day numbers, C01 covers the calendars themselves)",
         "DateInterval.__iter__'s plus_days range check is not modelled (all dates it builds lie inside [start, end])",
